@@ -39,10 +39,33 @@
   … and only then: `p.disclose` of the publication handed to the
     broker is set iff disclose_me is the bool true (and then the realm
     allows disclosure)                                                 C12_disclose_flag
+  realm level, for the publication `pubOf r s opts …` actually handed
+    over (no side condition left): a publisher key in a delivered
+    EVENT ⇒ disclose_me = true ∧ the realm allows disclosure ∧ the
+    recipient is attached and announced the feature; conversely the
+    three keys are then present with the publisher's id/authid/authrole C12_realm_event, C12_realm_event_disclosed,
+                                                                       C12_realm_event_details
+  REGISTER (`Realm.handleRegister`): a registration with disclose =
+    true either was there before (same id, same flag) or was created
+    by this REGISTER with disclose_caller = true ∧ (realm allows ∨
+    registrant's authrole = "trusted")                                 C12_reg_disclose_origin
+  disallowed disclose_caller: exactly one ERROR
+    option_disallowed.disclose_me offered to the sender, dealer state
+    unchanged, nothing announced                                       C12_register_refused
+  every handler refusal of REGISTER announces nothing                  C12_register_refusals_silent
+  "the realm allows disclosure" is a constant: in every reachable
+    realm the broker's and the dealer's `allowDisclose` / `strict`
+    equal the configuration                                            C12_flags_const
+  in every reachable realm no stored history entry carries a
+    publisher key (with Nexus.C20.C20_answer_no_identity: no
+    get_events answer does)                                            C12_history_no_identity_realm
 -/
 import Nexus.L2.Proofs.BrokerHist
 import Nexus.L2.Proofs.BrokerBase
 import Nexus.L2.Proofs.RealmPublish
+import Nexus.L2.Proofs.WpARealm
+import Nexus.L2.Proofs.WpABkC01
+import Nexus.L2.Proofs.WpABkC12
 
 namespace Nexus.C12
 open Nexus.L2 Gen.N
@@ -257,5 +280,259 @@ theorem C12_disclose_flag (r : Realm) (s : Session) (opts : Dict) (topic : Strin
   have : opts.optFlag OptDiscloseMe = true := h1
   rw [this] at h2
   simpa using h2
+
+/-! ### realm level: the EVENTs of the publication actually handed over (work package A, audit C12-a5) -/
+
+open Realm in
+/-- The three disclosure theorems composed for the publication `pubOf r s opts …` that `handlePublish`
+    hands to the broker (no side condition on `baseDetails` left: `C01_pubOf_base`).  Every message
+    sent is an EVENT for an attached session `c`, carrying the next publication id and the publisher's
+    arguments, and its details
+    * contain NO publisher key unless `disclose_me` is the boolean true and `c` announced
+      `subscriber.features.publisher_identification`;
+    * in that case carry `publisher` = the publisher's session id and `publisher_authid` /
+      `publisher_authrole` = the publisher's `authid` / `authrole` (absent iff absent). -/
+theorem C12_realm_event_details (r : Realm) (s : Session) (opts : Dict) (topic : String) (args : List WVal) (kw : Dict) :
+    ∀ x ∈ (r.broker.syncPublish r.session? r.now (pubOf r s opts topic args kw)).2,
+      ∃ (sub : Sub) (c : Session) (d : Dict), r.session? x.to = some c ∧
+        x.msg = .event sub.id (pubBase + r.pubCount) d args kw ∧
+        (¬(opts.get? OptDiscloseMe = some (.bool true) ∧ c.hasFeature RoleSubscriber FeaturePubIdent = true) →
+            ∀ key, isPublisherKey key → d.get? key = none) ∧
+        ((opts.get? OptDiscloseMe = some (.bool true) ∧ c.hasFeature RoleSubscriber FeaturePubIdent = true) →
+            d.get? "publisher" = some (.int (sidOf s.key)) ∧
+            d.get? "publisher_authid" = s.details.get? "authid" ∧
+            d.get? "publisher_authrole" = s.details.get? "authrole") := by
+  intro x hx
+  have hbase : ∀ key, isPublisherKey key → (pubOf r s opts topic args kw).baseDetails.get? key = none :=
+    fun key hk => (Nexus.L2.WpA.C01_pubOf_base r s opts topic args kw).1 key (Or.inr hk)
+  have hflag := (C12_disclose_flag r s opts topic args kw).1
+  obtain ⟨sub, c, d, hc, hm, hno, hyes⟩ :=
+    C12_disclose_event r.broker r.session? r.now (pubOf r s opts topic args kw) hbase x hx
+  refine ⟨sub, c, d, hc, hm, ?_, ?_⟩
+  · intro h; exact hno (fun hh => h ⟨hflag.mp hh.1, hh.2⟩)
+  · intro h; exact hyes ⟨hflag.mpr h.1, h.2⟩
+
+open Realm in
+/-- "Only if", in the form of the property text: a publisher key in a delivered EVENT ⇒ the publisher
+    asked (`disclose_me` = true), the realm allows disclosure, and the recipient is an attached
+    session that announced the identification feature.  (`hd`: the publication was not refused — a
+    refused one is not handed over at all, `C12_refused_publish`.) -/
+theorem C12_realm_event (r : Realm) (s : Session) (opts : Dict) (topic : String) (args : List WVal) (kw : Dict)
+    (hd : discloseRefused r opts = false) :
+    ∀ x ∈ (r.broker.syncPublish r.session? r.now (pubOf r s opts topic args kw)).2,
+      ∀ sub pub d a k, x.msg = .event sub pub d a k → ∀ key, isPublisherKey key → d.get? key ≠ none →
+        opts.get? OptDiscloseMe = some (.bool true) ∧ r.broker.allowDisclose = true ∧
+        ∃ c, r.session? x.to = some c ∧ c.hasFeature RoleSubscriber FeaturePubIdent = true := by
+  intro x hx sub pub d a k hmsg key hkey hne
+  obtain ⟨sub', c, d', hc, hm, hno, _⟩ := C12_realm_event_details r s opts topic args kw x hx
+  rw [hm] at hmsg
+  have hdd : d' = d := by injection hmsg
+  subst hdd
+  have hboth : opts.get? OptDiscloseMe = some (.bool true) ∧ c.hasFeature RoleSubscriber FeaturePubIdent = true := by
+    apply Classical.byContradiction
+    intro h
+    exact hne (hno h key hkey)
+  have hflag := C12_disclose_flag r s opts topic args kw
+  exact ⟨hboth.1, hflag.2 (hflag.1.mpr hboth.1) hd, c, hc, hboth.2⟩
+
+open Realm in
+/-- "If": when the publisher asked, the realm allows it (the publication is handed over) and the
+    recipient announced the feature, the three keys ARE there with the publisher's data. -/
+theorem C12_realm_event_disclosed (r : Realm) (s : Session) (opts : Dict) (topic : String) (args : List WVal) (kw : Dict)
+    (hdis : opts.get? OptDiscloseMe = some (.bool true)) :
+    ∀ x ∈ (r.broker.syncPublish r.session? r.now (pubOf r s opts topic args kw)).2,
+      ∀ c, r.session? x.to = some c → c.hasFeature RoleSubscriber FeaturePubIdent = true →
+        ∃ sub d, x.msg = .event sub (pubBase + r.pubCount) d args kw ∧
+          d.get? "publisher" = some (.int (sidOf s.key)) ∧
+          d.get? "publisher_authid" = s.details.get? "authid" ∧
+          d.get? "publisher_authrole" = s.details.get? "authrole" := by
+  intro x hx c hc hf
+  obtain ⟨sub, c', d, hc', hm, _, hyes⟩ := C12_realm_event_details r s opts topic args kw x hx
+  rw [hc] at hc'
+  cases hc'
+  exact ⟨sub.id, d, hm, hyes ⟨hdis, hf⟩⟩
+
+/-- non-vacuity: a realm that allows disclosure, one subscriber (session 1) that announced the
+    feature; the publication of session 3 (authid alice) with `disclose_me` is not refused and its one
+    EVENT carries the three keys. -/
+def exRealm : Realm :=
+  { broker := { (({} : Broker).syncSubscribe 1 1 "t" "exact" 0).1 with allowDisclose := true },
+    clients := [{ key := 1, details := [], roles := [("subscriber", ["publisher_identification"])], isLocal := false },
+                { key := 3, details := [("authid", .str "alice")], roles := [], isLocal := false }] }
+
+example : Realm.discloseRefused exRealm [("disclose_me", .bool true)] = false ∧
+    Dict.get? [("disclose_me", .bool true)] OptDiscloseMe = some (.bool true) ∧
+    (exRealm.broker.syncPublish exRealm.session? exRealm.now
+      (Realm.pubOf exRealm { key := 3, details := [("authid", .str "alice")], roles := [], isLocal := false }
+        [("disclose_me", .bool true)] "t" [.int 7] [])).2.map (fun x => (x.to, x.msg.eventPub?)) =
+      [(1, some pubBase)] ∧
+    (∃ c, exRealm.session? 1 = some c ∧ c.hasFeature RoleSubscriber FeaturePubIdent = true) := by
+  refine ⟨by decide, by rfl, by decide +kernel,
+    ⟨{ key := 1, details := [], roles := [("subscriber", ["publisher_identification"])], isLocal := false },
+      by rfl, by decide⟩⟩
+
+/-! ### realm level: REGISTER and `disclose_caller` (work package A, audit C12-a2) -/
+
+open Realm Nexus.L2.WpA in
+/-- Where a registration's `disclose` flag comes from.  After `handleRegister r s req opts proc`, a
+    registration `g` with `g.disclose = true` either continues a registration that was already there
+    (same id, same flag: joining a shared registration changes only its `callees`, so the flag is the
+    CREATOR's), or it is the registration created by this very REGISTER — fresh id, `s` its only
+    callee — and then `disclose_caller` was requested (the boolean true) AND the realm allows
+    disclosure or the registering session's authrole is "trusted". -/
+theorem C12_reg_disclose_origin (r : Realm) (s : Session) (req : Nat) (opts : Dict) (proc : String) :
+    ∀ g ∈ (handleRegister r s req opts proc).ds.d.regs, g.disclose = true →
+      (∃ g0 ∈ r.ds.d.regs, g0.id = g.id ∧ g0.disclose = g.disclose) ∨
+      (g.id = r.ds.d.nextReg + 1 ∧ g.callees = [s.key] ∧ g.proc = proc ∧
+        opts.optFlag OptDiscloseCaller = true ∧
+        (r.ds.d.allowDisclose = true ∨ sessAttr s.details "authrole" = "trusted")) := by
+  intro g hg hdis
+  rw [handleRegister_eq] at hg
+  cases hr : registerRefusal r s req opts proc with
+  | some m =>
+    rw [hr] at hg
+    simp only [trySend_ds] at hg
+    exact Or.inl ⟨g, hg, rfl, rfl⟩
+  | none =>
+    rw [hr] at hg
+    simp only [applyD_ds] at hg
+    rcases syncRegister_regs_origin _ _ _ _ _ _ _ _ _ g hg with h | ⟨h1, h2, h3, h4⟩
+    · exact Or.inl h
+    · refine Or.inr ⟨h1, h2, h3, by rw [← h4]; exact hdis, ?_⟩
+      have hflag : opts.optFlag OptDiscloseCaller = true := by rw [← h4]; exact hdis
+      unfold registerRefusal at hr
+      split at hr
+      · cases hr
+      · split at hr
+        · cases hr
+        · split at hr
+          · cases hr
+          · rename_i hno
+            cases ha : r.ds.d.allowDisclose with
+            | true => exact Or.inl rfl
+            | false =>
+              right
+              apply Classical.byContradiction
+              intro ht
+              exact hno ⟨ha, hflag, ht⟩
+
+open Realm Nexus.L2.WpA in
+/-- REGISTER with `disclose_caller` in a realm that disallows disclosure, by a session whose authrole
+    is not "trusted" (URI valid, not a `wamp.` URI from a client): REFUSED.  The whole effect is one
+    ERROR(REGISTER, req, wamp.error.option_disallowed.disclose_me) offered to the sender's queue
+    (appended if there is room, dropped — changing nothing — if the queue is full); the dealer state,
+    hence every registration, is unchanged; no meta event is queued; nobody else's queue changes. -/
+theorem C12_register_refused (r : Realm) (s : Session) (req : Nat) (opts : Dict) (proc : String)
+    (hv : validUri r.ds.d.strict (opts.optString OptMatch) proc = true)
+    (hw : ¬(proc.startsWith "wamp." = true ∧ s.key ≠ metaKey))
+    (hd : opts.optFlag OptDiscloseCaller = true) (ha : r.ds.d.allowDisclose = false)
+    (ht : sessAttr s.details "authrole" ≠ "trusted") :
+    handleRegister r s req opts proc =
+      r.trySend ⟨s.key, .error tREGISTER req [] ErrOptionDisallowedDiscloseMe [] []⟩ ∧
+    (handleRegister r s req opts proc).ds = r.ds ∧
+    (handleRegister r s req opts proc).tasks = r.tasks ∧
+    (handleRegister r s req opts proc).broker = r.broker ∧
+    (handleRegister r s req opts proc).clients = r.clients ∧
+    (∀ k, k ≠ s.key → (handleRegister r s req opts proc).queueOf k = r.queueOf k) ∧
+    (∀ c, s.key ≠ metaKey → r.client? s.key = some c →
+      (c.cap ≤ r.queueLen s.key → handleRegister r s req opts proc = r) ∧
+      (r.queueLen s.key < c.cap →
+        (handleRegister r s req opts proc).queueOf s.key =
+          r.queueOf s.key ++ [.error tREGISTER req [] ErrOptionDisallowedDiscloseMe [] []])) := by
+  have hr : registerRefusal r s req opts proc = some (errMsg tREGISTER req ErrOptionDisallowedDiscloseMe) := by
+    unfold registerRefusal
+    rw [if_neg (by simp [hv]), if_neg hw, if_pos ⟨ha, hd, ht⟩]
+  have heq : handleRegister r s req opts proc =
+      r.trySend ⟨s.key, .error tREGISTER req [] ErrOptionDisallowedDiscloseMe [] []⟩ := by
+    rw [handleRegister_eq, hr]; rfl
+  have hf := trySend_frame r ⟨s.key, .error tREGISTER req [] ErrOptionDisallowedDiscloseMe [] []⟩
+  refine ⟨heq, by rw [heq]; exact hf.ds, ?_, by rw [heq]; exact hf.broker, by rw [heq]; exact hf.clients, ?_, ?_⟩
+  · rw [heq]; exact trySend_tasks_noninv r _ (fun _ _ _ _ _ h => by cases h)
+  · intro k hk
+    rw [heq, queueOf_trySend, if_neg (fun h => hk h.1.symm)]
+  · intro c hk hc
+    rw [heq]
+    obtain ⟨h1, h2⟩ := trySend_client_effect r ⟨s.key, .error tREGISTER req [] ErrOptionDisallowedDiscloseMe [] []⟩ hk hc
+    exact ⟨h1, fun hroom => (h2 hroom).1⟩
+
+/-- non-vacuity: an ordinary client asking for `disclose_caller` in the default realm (disclosure not
+    allowed) -/
+example : validUri ({} : Realm).ds.d.strict (Dict.optString [("disclose_caller", .bool true)] OptMatch) "a.b" = true ∧
+    ¬(("a.b" : String).startsWith "wamp." = true ∧ (5 : SessKey) ≠ metaKey) ∧
+    Dict.optFlag [("disclose_caller", .bool true)] OptDiscloseCaller = true ∧
+    ({} : Realm).ds.d.allowDisclose = false ∧ sessAttr [("authrole", .str "user")] "authrole" ≠ "trusted" := by
+  refine ⟨by decide +kernel, by decide +kernel, by decide, rfl, by decide⟩
+
+open Realm Nexus.L2.WpA in
+/-- Every refusal of REGISTER in the handler (invalid URI; a `wamp.` URI from a client; disallowed
+    `disclose_caller`; unknown invocation policy) announces nothing: the effect is one
+    ERROR(REGISTER, req, …) offered to the sender; the dealer state is unchanged and no task (hence no
+    meta event) is queued. -/
+theorem C12_register_refusals_silent (r : Realm) (s : Session) (req : Nat) (opts : Dict) (proc : String)
+    (h : validUri r.ds.d.strict (opts.optString OptMatch) proc = false ∨
+         (proc.startsWith "wamp." = true ∧ s.key ≠ metaKey) ∨
+         (r.ds.d.allowDisclose = false ∧ opts.optFlag OptDiscloseCaller = true ∧
+            sessAttr s.details "authrole" ≠ "trusted") ∨
+         (opts.optString OptInvoke) ∉ knownPolicies) :
+    ∃ uri a, handleRegister r s req opts proc = r.trySend ⟨s.key, .error tREGISTER req [] uri a []⟩ ∧
+      (handleRegister r s req opts proc).ds = r.ds ∧
+      (handleRegister r s req opts proc).tasks = r.tasks ∧
+      (handleRegister r s req opts proc).broker = r.broker := by
+  have hr : ∃ uri a, registerRefusal r s req opts proc = some (.error tREGISTER req [] uri a []) := by
+    unfold registerRefusal
+    split
+    · exact ⟨_, _, rfl⟩
+    · split
+      · exact ⟨_, _, rfl⟩
+      · split
+        · exact ⟨_, _, rfl⟩
+        · split
+          · exact ⟨_, _, rfl⟩
+          · rename_i h1 h2 h3 h4
+            rcases h with h | h | h | h
+            · exact absurd h h1
+            · exact absurd h h2
+            · exact absurd h h3
+            · exact absurd h h4
+  obtain ⟨uri, a, hr⟩ := hr
+  have heq : handleRegister r s req opts proc = r.trySend ⟨s.key, .error tREGISTER req [] uri a []⟩ := by
+    rw [handleRegister_eq, hr]
+  have hf := trySend_frame r ⟨s.key, .error tREGISTER req [] uri a []⟩
+  exact ⟨uri, a, heq, by rw [heq]; exact hf.ds,
+    by rw [heq]; exact trySend_tasks_noninv r _ (fun _ _ _ _ _ h => by cases h), by rw [heq]; exact hf.broker⟩
+
+/-- non-vacuity: the four refusal reasons on concrete requests -/
+example : validUri false "" "a..b" = false ∧ ("wamp.x" : String).startsWith "wamp." = true ∧
+    Dict.optString [("invoke", .str "nonsense")] OptInvoke ∉ Realm.knownPolicies := by
+  refine ⟨by decide +kernel, by decide +kernel, by decide⟩
+
+/-! ### realm level (work package A): every reachable realm -/
+
+/-- "The realm allows disclosure" is a constant of the realm: in every reachable state the broker's
+    and the dealer's copies of `allowDisclose` (and of `strict`) are the configured values.  So
+    `r.broker.allowDisclose` in `C12_refused_publish` / `C12_disclose_flag` and `s.d.allowDisclose` in the
+    dealer theorems (C12Dealer) all mean `cfg.allowDisclose`. -/
+theorem C12_flags_const {cfg : Config} {r : Realm} (h : Realm.Reachable cfg r) :
+    r.broker.allowDisclose = cfg.allowDisclose ∧ r.ds.d.allowDisclose = cfg.allowDisclose ∧
+    r.broker.strict = cfg.strict ∧ r.ds.d.strict = cfg.strict := by
+  obtain ⟨a, b, c, d, _, _⟩ := WpA.flags_const h
+  exact ⟨a, b, c, d⟩
+
+/-- non-vacuity: `Realm.Reachable` is inhabited for a configuration that allows disclosure -/
+example : ∃ r, Realm.Reachable { allowDisclose := true } r ∧ r.broker.allowDisclose = true := by
+  have hs : (Realm.create { allowDisclose := true }).isSome = true := by decide +kernel
+  cases hc : Realm.create { allowDisclose := true } with
+  | none => rw [hc] at hs; cases hs
+  | some r => exact ⟨r, .init hc, (C12_flags_const (.init hc)).1⟩
+
+/-- In every reachable realm no stored history entry carries a publisher key — whatever was
+    published with `disclose_me` and whoever was subscribed: the hypotheses of
+    `C12_history_no_identity_init` hold for the run that produced the realm's broker. -/
+theorem C12_history_no_identity_realm {cfg : Config} {r : Realm} (h : Realm.Reachable cfg r) :
+    ∀ st ∈ r.broker.hist, ∀ e ∈ st.entries, ∀ key, isPublisherKey key → e.details.get? key = none := by
+  obtain ⟨steps, hb, ht⟩ := WpA.reachable_run h
+  rw [hb]
+  exact C12_history_no_identity_init cfg.strict cfg.allowDisclose cfg.history steps
+    (fun sess now p hm key hk => WpA.Trace.pubOk ht sess now p hm key (Or.inr hk))
 
 end Nexus.C12
